@@ -30,9 +30,19 @@ def patch_function(owner, name, old, new, count=1):
     if wrapper is not None:
         newfn = wrapper(newfn)
     setattr(owner, name, newfn)
+    rebound = []
+    if not isinstance(owner, type):
+        # `from x import f` copies the binding: rebind every importer too
+        for m in list(sys.modules.values()):
+            d = getattr(m, "__dict__", None)
+            if d is not None and m is not owner and d.get(name) is orig:
+                d[name] = newfn
+                rebound.append(m)
 
     def undo():
         setattr(owner, name, orig)
+        for m in rebound:
+            m.__dict__[name] = orig
     return undo
 
 
